@@ -187,8 +187,16 @@ pub fn run_impl(c: &Case) -> Vec<(String, String)> {
         "mulassign" => with_mulassign!(tag, T => guard(|| { let mut p = T::from_nums(c.li("p")); p *= c.fl("s"); hxs(&p.to_nums()) })),
         "neg" => with_negadd!(tag, T => guard(|| hxs(&(-T::from_nums(c.li("p"))).to_nums()))),
         "add" => with_negadd!(tag, T => guard(|| hxs(&(T::from_nums(c.li("p")) + T::from_nums(c.li("q"))).to_nums()))),
-        "absdiff" => with_all!(tag, T => guard(|| b(T::from_nums(c.li("p")).abs_diff_eq(&T::from_nums(c.li("q")), c.fl("eps"))))),
-        "releq" => with_all!(tag, T => guard(|| b(T::from_nums(c.li("p")).relative_eq(&T::from_nums(c.li("q")), c.fl("eps"), c.fl("mr"))))),
+        "absdiff" => with_all!(tag, T => {
+            // the default tolerance every type advertises (C17 quantifies over "0, default, large")
+            out.push(("deps".to_string(), guard(|| hx(<T as AbsDiffEq>::default_epsilon()))));
+            guard(|| b(T::from_nums(c.li("p")).abs_diff_eq(&T::from_nums(c.li("q")), c.fl("eps"))))
+        }),
+        "releq" => with_all!(tag, T => {
+            out.push(("deps".to_string(), guard(|| hx(<T as AbsDiffEq>::default_epsilon()))));
+            out.push(("dmr".to_string(), guard(|| hx(<T as RelativeEq>::default_max_relative()))));
+            guard(|| b(T::from_nums(c.li("p")).relative_eq(&T::from_nums(c.li("q")), c.fl("eps"), c.fl("mr"))))
+        }),
         "pwderiv" => with_deriv!(tag, T => guard(|| show_pw(&pw_from(&pw_to::<T>(c.pw("pw")).derivative())))),
         "segderiv" => with_deriv!(tag, T => guard(|| show_pw(&segs_from(&[pw_to::<T>(c.pw("pw")).segments[0].derivative()])))),
         "pwintegral" => with_integ!(tag, T => guard(|| {
@@ -226,8 +234,22 @@ pub fn run_impl(c: &Case) -> Vec<(String, String)> {
         "pwneg" => with_negadd!(tag, T => guard(|| show_pw(&pw_from(&(-pw_to::<T>(c.pw("pw"))))))),
         "pwtranslate" => with_all!(tag, T => guard(|| { let mut p = pw_to::<T>(c.pw("pw")); p.translate(c.fl("v")); show_pw(&pw_from(&p)) })),
         "segtranslate" => with_all!(tag, T => guard(|| { let mut p = pw_to::<T>(c.pw("pw")); p.segments[0].translate(c.fl("v")); show_pw(&segs_from(&[p.segments.remove(0)])) })),
-        "pwabsdiff" => with_fixed!(tag, T => guard(|| b(pw_to::<T>(c.pw("pw")).abs_diff_eq(&pw_to::<T>(c.pw("pw2")), c.fl("eps"))))),
-        "pwreleq" => with_fixed!(tag, T => guard(|| b(pw_to::<T>(c.pw("pw")).relative_eq(&pw_to::<T>(c.pw("pw2")), c.fl("eps"), c.fl("mr"))))),
+        "pwabsdiff" => with_fixed!(tag, T => {
+            out.push(("deps".to_string(), guard(|| {
+                let a = <Piecewise<T> as AbsDiffEq>::default_epsilon();
+                let s = <Segment<T> as AbsDiffEq>::default_epsilon();
+                if a.to_bits() == s.to_bits() { hx(a) } else { hx(f64::NAN) }
+            })));
+            guard(|| b(pw_to::<T>(c.pw("pw")).abs_diff_eq(&pw_to::<T>(c.pw("pw2")), c.fl("eps"))))
+        }),
+        "pwreleq" => with_fixed!(tag, T => {
+            out.push(("dmr".to_string(), guard(|| {
+                let a = <Piecewise<T> as RelativeEq>::default_max_relative();
+                let s = <Segment<T> as RelativeEq>::default_max_relative();
+                if a.to_bits() == s.to_bits() { hx(a) } else { hx(f64::NAN) }
+            })));
+            guard(|| b(pw_to::<T>(c.pw("pw")).relative_eq(&pw_to::<T>(c.pw("pw2")), c.fl("eps"), c.fl("mr"))))
+        }),
         "merge" => {
             let f = pw_to::<IntOfLogPoly4>(c.pw("f"));
             let g = pw_to::<IntOfLogPoly4>(c.pw("g"));
